@@ -1,7 +1,100 @@
 /* C08 recorder: drives cbor_stream_decode over (initial byte x argument x provided length) and logs one
  * ndjson line per call. Buffers are exactly-sized heap blocks (ASan red zone right behind).
  * usage: h_wire <quick|thorough> */
+#ifdef VH_GLOBALS
+#define _GNU_SOURCE
+#endif
 #include "vh.h"
+#ifdef VH_GLOBALS
+/* "keeps no state between calls": with libcbor.so's writable segments (.data/.bss/.got, bound eagerly) write-protected,
+ * any store a call makes to a static or global of the library faults and is counted (built against the shared library) */
+#include <dlfcn.h>
+#include <link.h>
+#include <signal.h>
+#include <sys/mman.h>
+#include <unistd.h>
+static uintptr_t seg_lo[8], seg_hi[8];
+static int nseg;
+static int phdr_cb(struct dl_phdr_info* info, size_t size, void* data) {
+  (void)size; (void)data;
+  if (!info->dlpi_name || !strstr(info->dlpi_name, "libcbor")) return 0;
+  for (int i = 0; i < info->dlpi_phnum; i++) {
+    const ElfW(Phdr)* ph = &info->dlpi_phdr[i];
+    if (ph->p_type == PT_LOAD && (ph->p_flags & PF_W) && nseg < 8) {
+      seg_lo[nseg] = (info->dlpi_addr + ph->p_vaddr) & ~(uintptr_t)4095;
+      seg_hi[nseg] = (info->dlpi_addr + ph->p_vaddr + ph->p_memsz + 4095) & ~(uintptr_t)4095;
+      nseg++;
+    }
+  }
+  return 0;
+}
+static volatile int gfaults;
+static char gsym[256];
+static void on_segv(int sig, siginfo_t* si, void* uc) {
+  (void)sig; (void)uc;
+  uintptr_t a = (uintptr_t)si->si_addr;
+  for (int i = 0; i < nseg; i++)
+    if (a >= seg_lo[i] && a < seg_hi[i]) {
+      gfaults++;
+      Dl_info di;
+      if (dladdr(si->si_addr, &di) && di.dli_sname) snprintf(gsym, sizeof gsym, "%s", di.dli_sname);
+      else snprintf(gsym, sizeof gsym, "libcbor+0x%lx", (unsigned long)(a - seg_lo[0]));
+      mprotect((void*)seg_lo[i], seg_hi[i] - seg_lo[i], PROT_READ | PROT_WRITE);
+      return;
+    }
+  static const char msg[] = "\nh_wire: fault outside libcbor data\n";
+  if (write(2, msg, sizeof msg - 1) < 0) {}
+  _exit(78);
+}
+static void protect(int ro) { for (int i = 0; i < nseg; i++) mprotect((void*)seg_lo[i], seg_hi[i] - seg_lo[i], ro ? PROT_READ : PROT_READ | PROT_WRITE); }
+static int globals_main(void) {
+  va_install();
+  dl_iterate_phdr(phdr_cb, NULL);
+  struct sigaction sa;
+  memset(&sa, 0, sizeof sa);
+  sa.sa_sigaction = on_segv;
+  sa.sa_flags = SA_SIGINFO;
+  sigaction(SIGSEGV, &sa, NULL);
+  long calls = 0, faulting_calls = 0;
+  unsigned char first[12] = {0};
+  size_t firstn = 0;
+  for (int pass = 0; pass < 2; pass++)      /* the very first call of each kind, and a later one */
+    for (unsigned b0 = 0; b0 < 256; b0++) {
+      unsigned ai = b0 & 31;
+      int argw = ai == 24 ? 1 : ai == 25 ? 2 : ai == 26 ? 4 : ai == 27 ? 8 : 0;
+      static const uint64_t vals[] = {0, 1, 24, 0x3c00, 0x0001, 0x8001, 0x7c00, 0xfe00, 0x80000000u, 0xffffffffu, 0x3ff0000000000000ull, 0x8000000000000001ull, ~0ull};
+      for (size_t vi = 0; vi < sizeof vals / sizeof *vals; vi++) {
+        unsigned char img[16] = {0};
+        img[0] = (unsigned char)b0;
+        for (int i = 0; i < argw; i++) img[1 + i] = (unsigned char)(vals[vi] >> (8 * (argw - 1 - i)));
+        for (size_t n = 0; n <= (size_t)argw + 2; n++) {
+          unsigned char* blk;
+          unsigned char* w = vh_exact_rot(n, &blk);
+          memcpy(w, img, n);
+          int f0 = gfaults;
+          protect(1);
+          struct cbor_decoder_result r = cbor_stream_decode(w, n, &vh_recording_callbacks, NULL);
+          protect(0);
+          (void)r;
+          calls++;
+          if (gfaults > f0 && !faulting_calls++) { firstn = n < 12 ? n : 12; memcpy(first, w, firstn); }
+          free(blk);
+        }
+        if (argw == 0) break;
+      }
+    }
+  /* device self-test: re-installing the allocators IS a store to the library's globals and must fault */
+  int f1 = gfaults;
+  protect(1);
+  va_install();
+  protect(0);
+  fprintf(vh_out, "{\"e\":\"globals\",\"segments\":%d,\"calls\":%ld,\"faults\":%ld,\"symbol\":\"%s\",\"selftest\":%s", nseg, calls, faulting_calls, faulting_calls ? gsym : "", gfaults > f1 ? "true" : "false");
+  vh_kbytes("first", first, firstn);
+  fprintf(vh_out, "}\n");
+  fflush(vh_out);
+  _exit(0); /* (exit handlers of the library may write to its .bss) */
+}
+#endif
 
 static long nlines;
 
@@ -37,6 +130,9 @@ static size_t mk_head(unsigned char* img, unsigned b0, int argw, uint64_t arg) {
 }
 
 int main(int argc, char** argv) {
+#ifdef VH_GLOBALS
+  if (argc > 1 && !strcmp(argv[1], "globals")) return globals_main();
+#endif
   bool thorough = argc > 1 && !strcmp(argv[1], "thorough");
   va_install();
   one(NULL, 0, 0, 0);
